@@ -443,6 +443,7 @@ impl ParsedValue {
         values: &LocalesOrNamespaces,
         top_locale: &Key,
         default_locale: &Key,
+        extensions: &BTreeMap<Key, Key>,
         key_path: &KeyPath,
     ) -> Result<()> {
         let ForeignKey::NotSet(foreign_key_path, args) = &*foreign_key else {
@@ -450,42 +451,62 @@ impl ParsedValue {
             return Ok(());
         };
 
-        let Some(value) = values.get_value_at(top_locale, foreign_key_path) else {
-            return Err(Error::MissingForeignKey {
-                foreign_key: foreign_key_path.to_owned(),
-                locale: top_locale.clone(),
-                key_path: key_path.to_owned(),
+        // An explicit default (`null`) is looked up in the locale this one defaults to:
+        // the locale it inherits from if any, else the default locale (same walk as `DefaultedLocales`).
+        let mut target_locale = top_locale;
+        let mut visited = vec![top_locale];
+        let value = loop {
+            match values.get_value_at(target_locale, foreign_key_path) {
+                Some(value) if !matches!(value, ParsedValue::Default) => break value,
+                // this check is normally done in a later step for optimisations (Locale::make_builder_keys),
+                // but we still need to do it here to avoid infinite loop
+                // this case happen if a foreign key point to an explicit default in the default locale
+                // pretty niche, but would cause a rustc stack overflow if not done.
+                Some(_) if target_locale == default_locale => {
+                    return Err(Error::ExplicitDefaultInDefault(key_path.to_owned()).into());
+                }
+                // implicit defaults can't be pointed at, but while following explicit defaults
+                // a locale further up the chain is allowed to not declare the key.
+                None if target_locale == top_locale || target_locale == default_locale => {
+                    return Err(Error::MissingForeignKey {
+                        foreign_key: foreign_key_path.to_owned(),
+                        locale: top_locale.clone(),
+                        key_path: key_path.to_owned(),
+                    }
+                    .into());
+                }
+                _ => {}
             }
-            .into());
+            let next = extensions.get(target_locale).unwrap_or(default_locale);
+            target_locale = if visited.contains(&next) {
+                default_locale
+            } else {
+                next
+            };
+            visited.push(target_locale);
         };
 
-        if matches!(value, ParsedValue::Default) {
-            // this check is normally done in a later step for optimisations (Locale::make_builder_keys),
-            // but we still need to do it here to avoid infinite loop
-            // this case happen if a foreign key point to an explicit default in the default locale
-            // pretty niche, but would cause a rustc stack overflow if not done.
-            if top_locale == default_locale {
-                return Err(Error::ExplicitDefaultInDefault(key_path.to_owned()).into());
-            } else {
-                return Self::resolve_foreign_key_inner(
-                    foreign_key,
-                    values,
-                    default_locale,
-                    default_locale,
-                    key_path,
-                );
-            }
-        }
-
         // possibility that the foreign key must be resolved too
-        value.resolve_foreign_key(values, top_locale, default_locale, foreign_key_path)?;
+        value.resolve_foreign_key(
+            values,
+            target_locale,
+            default_locale,
+            extensions,
+            foreign_key_path,
+        )?;
 
         // possibility that args must resolve too
         for arg in args.values() {
-            arg.resolve_foreign_key(values, top_locale, default_locale, foreign_key_path)?;
+            arg.resolve_foreign_key(
+                values,
+                top_locale,
+                default_locale,
+                extensions,
+                foreign_key_path,
+            )?;
         }
 
-        let value = value.populate(args, foreign_key_path, top_locale, key_path)?;
+        let value = value.populate(args, foreign_key_path, target_locale, key_path)?;
 
         let _ = std::mem::replace(foreign_key, ForeignKey::Set(Box::new(value)));
 
@@ -497,20 +518,21 @@ impl ParsedValue {
         values: &LocalesOrNamespaces,
         top_locale: &Key,
         default_locale: &Key,
+        extensions: &BTreeMap<Key, Key>,
         path: &KeyPath,
     ) -> Result<()> {
         match self {
             ParsedValue::Variable { .. } | ParsedValue::Literal(_) | ParsedValue::Default => Ok(()),
             ParsedValue::Subkeys(_) => Ok(()), // unreachable ?
             ParsedValue::Ranges(inner) => {
-                inner.resolve_foreign_keys(values, top_locale, default_locale, path)
+                inner.resolve_foreign_keys(values, top_locale, default_locale, extensions, path)
             }
             ParsedValue::Component { inner, .. } => {
-                inner.resolve_foreign_key(values, top_locale, default_locale, path)
+                inner.resolve_foreign_key(values, top_locale, default_locale, extensions, path)
             }
             ParsedValue::Bloc(bloc) => {
                 for value in bloc {
-                    value.resolve_foreign_key(values, top_locale, default_locale, path)?;
+                    value.resolve_foreign_key(values, top_locale, default_locale, extensions, path)?;
                 }
                 Ok(())
             }
@@ -528,14 +550,15 @@ impl ParsedValue {
                     values,
                     top_locale,
                     default_locale,
+                    extensions,
                     path,
                 )
             }
             ParsedValue::Plurals(Plurals { forms, other, .. }) => {
                 for value in forms.values() {
-                    value.resolve_foreign_key(values, top_locale, default_locale, path)?;
+                    value.resolve_foreign_key(values, top_locale, default_locale, extensions, path)?;
                 }
-                other.resolve_foreign_key(values, top_locale, default_locale, path)
+                other.resolve_foreign_key(values, top_locale, default_locale, extensions, path)
             }
         }
     }
